@@ -471,17 +471,18 @@ PadPairConf(kind, b, n, padded, res, resp) ==
 
 NoCit == [valid |-> FALSE, b |-> <<>>, tiles |-> <<>>, pos |-> 1, over |-> TRUE, yielded |-> 0, leaves |-> <<>>]
 
-CParseConf(b, res) ==
+\* tl = Tiling(b) (for very long inputs: a validated witness of it)
+CParseConf(b, res, tl) ==
     /\ (P("C01") \/ P("C11")) => ~IsPanic(res)
-    /\ P("C11") => (IsOk(res) <=> CompoundAccepts(b))
+    /\ P("C11") => (IsOk(res) <=> (b # <<>> /\ tl.ok))
     /\ P("C18") => (IsErr(res) =>
                       /\ Truthful(-1, b, AsErr(res))
                       /\ Len(b) < 4 => AsErr(res) = Err("Truncated", << 4, Len(b) >>))
 
 \* leaves: when b is the image just written from a compound configuration, its leaf members (C14)
-CitAfterParse(b, res, leaves) ==
+CitAfterParse(b, res, leaves, tl) ==
     IF IsOk(res)
-    THEN [valid |-> TRUE, b |-> b, tiles |-> Tiling(b).tiles, pos |-> 1, over |-> ~CompoundAccepts(b), yielded |-> 0,
+    THEN [valid |-> TRUE, b |-> b, tiles |-> tl.tiles, pos |-> 1, over |-> ~(b # <<>> /\ tl.ok), yielded |-> 0,
           leaves |-> leaves]
     ELSE NoCit
 
